@@ -56,6 +56,10 @@ var bwMode bool
 // that stamps an option on the response message before the handler runs
 var handlerMode string
 
+// hijackRelease (`srvh` lines): the handler takes the request over (Hijack) and hands it back to the pool before it
+// responds — fire-and-forget processing of the request by another owner; what the requester asked for must still hold
+var hijackRelease bool
+
 // callCodes (`srvn` lines): the handler calls SetResponse once per code, in this order (nil: once, with the line's code)
 var callCodes []codes.Code
 
@@ -171,6 +175,10 @@ func srvUDPOnce(t *testing.T, con bool, v int64, code codes.Code, coincidence *b
 				for _, id := range handlerMutates {
 					r.SetOptionBytes(id, []byte{0x68, byte(id)})
 				}
+				if hijackRelease {
+					r.Hijack()
+					w.Conn().ReleaseMessage(r)
+				}
 				set = setCalls(code, func(c codes.Code) error { return w.SetResponse(c, message.TextPlain, nil) })
 			}
 		}})
@@ -216,6 +224,10 @@ func srvTCP(t *testing.T, v int64, code codes.Code, extra ...message.OptionID) (
 			cfg.Handler = func(w *responsewriter.ResponseWriter[*tcpclient.Conn], r *pool.Message) {
 				for _, id := range handlerMutates {
 					r.SetOptionBytes(id, []byte{0x68, byte(id)})
+				}
+				if hijackRelease {
+					r.Hijack()
+					w.Conn().ReleaseMessage(r)
 				}
 				set = setCalls(code, func(c codes.Code) error { return w.SetResponse(c, message.TextPlain, nil) })
 			}
@@ -452,6 +464,21 @@ func TestC20(t *testing.T) {
 				o = strings.Fields(o + " - -")[1]
 			}
 			fmt.Fprintln(w, o)
+		case len(f) == 5 && f[0] == "srvh":
+			// srvh <udp|tcp> <con|non> <v|-> <code>: the handler hijacks and releases its request, then calls SetResponse
+			handlerMutates, badLength, callCodes = nil, nil, nil
+			hijackRelease = true
+			v := int64(-1)
+			if f[3] != "-" {
+				v, _ = strconv.ParseInt(f[3], 10, 64)
+			}
+			c, _ := strconv.ParseUint(f[4], 10, 16)
+			if f[1] == "udp" {
+				fmt.Fprintln(w, srvUDP(t, f[2] == "con", v, codes.Code(c)))
+			} else {
+				fmt.Fprintln(w, srvTCP(t, v, codes.Code(c)))
+			}
+			hijackRelease = false
 		case len(f) == 5 && f[0] == "srvn":
 			// srvn <udp|tcp> <con|non> <v|-> <c1,c2,…>: the handler calls SetResponse once per code
 			handlerMutates, badLength, callCodes = nil, nil, nil
